@@ -20,18 +20,27 @@ from checks import c02
 PROP = "C14"
 
 
-def builder_case(d, start, pop, part, all_nan_leaf=None):
-    """Builder.cascade + WTML: data range of the image set = range over the leaves."""
+def builder_case(d, start, pop, part, all_nan_leaf=None, nan_file=False):
+    """Builder.cascade + WTML: data range of the image set = range over the leaves.  Then a history on
+    the same Builder: a leaf is replaced so that the range widens, cascade, WTML; then replaced so that
+    it narrows again, cascade, WTML.  With nan_file the all-NaN leaf is a FITS file saved through
+    Image.save (PyramidIO does not store all-undefined tiles) right after a tile of ANOTHER pyramid with
+    a far wider range was written by this process."""
     from toasty.builder import Builder
     from toasty.pyramid import PyramidIO, Pos
     from toasty.image import Image
+    from wwt_data_formats.folder import Folder
+    from wwt_data_formats.place import Place
 
     kind = "fits-F32"
-    cfg = {"start": start, "population": list(pop), "builder": True, "all_nan_leaf": all_nan_leaf}
+    cfg = {"start": start, "population": list(pop), "builder": True, "all_nan_leaf": all_nan_leaf, "nan_leaf_as_file": bool(nan_file)}
     part.case(nontrivial=True)
+    phase = ["first-cascade"]
 
     def bad(clause, detail):
-        part.violation("%s/%s" % (clause, kind), "%r: %s" % (cfg, detail), cfg)
+        c = dict(cfg, phase=phase[0])
+        sig = clause if phase[0] == "first-cascade" else "%s/%s" % (clause, phase[0])
+        part.violation("%s/%s" % (sig, kind), "%r: %s" % (c, detail), c)
 
     root = os.path.join(d, "b")
     shutil.rmtree(root, ignore_errors=True)
@@ -39,11 +48,32 @@ def builder_case(d, start, pop, part, all_nan_leaf=None):
     side = 2**start
     positions = c02.population_positions(pop, start)
     leaves = {pos: c02.leaf(pos[2] * side + pos[1], kind) for pos in positions}
+    nanpos = None
     if all_nan_leaf is not None:
-        leaves[c02.population_positions((all_nan_leaf,), start)[0]] = np.full((256, 256), np.nan, dtype="f4")
+        nanpos = c02.population_positions((all_nan_leaf,), start)[0]
+        leaves[nanpos] = np.full((256, 256), np.nan, dtype="f4")
+
+    def verify(b, stored):
+        fin = np.concatenate([a[np.isfinite(a)] for a in stored.values()])
+        lo, hi = np.float32(fin.min()), np.float32(fin.max())
+        if not (np.isclose(b.imgset.data_min, lo, rtol=2e-7) and np.isclose(b.imgset.data_max, hi, rtol=2e-7)):
+            bad("range/imageset", "Builder.imgset data_min/max = %r/%r, leaves span %r/%r" % (b.imgset.data_min, b.imgset.data_max, float(lo), float(hi)))
+        f = Folder.from_file(os.path.join(root, "index_rel.wtml"))
+        ch = f.children[0]
+        iset = ch.foreground_image_set if isinstance(ch, Place) else ch
+        if not (np.isclose(iset.data_min, lo, rtol=2e-7) and np.isclose(iset.data_max, hi, rtol=2e-7)):
+            bad("range/wtml", "index_rel.wtml DataMin/DataMax = %r/%r, leaves span %r/%r" % (iset.data_min, iset.data_max, float(lo), float(hi)))
+        got = c02.read_tree(root, "fits")
+        want = c02.expected_tree(stored, start, kind)
+        c02.compare_trees(got, want, start, kind, bad, True, stored)
+
     try:
         with quiet():
-            c02.write_leaves(pio, leaves, "fits")
+            c02.write_leaves(pio, {p: a for p, a in leaves.items() if not (nan_file and p == nanpos)}, "fits")
+            if nan_file and nanpos is not None:
+                fpio = PyramidIO(os.path.join(d, "foreign"), default_format="fits")
+                fpio.write_image(Pos(1, 0, 1), Image.from_array(np.linspace(-7e4, 9e4, 65536).reshape(256, 256).astype("f4")))
+                Image.from_array(leaves[nanpos].copy()).save(pio.tile_path(Pos(*nanpos)), format="fits")
             b = Builder(pio)
             b.imgset.tile_levels = start
             b.cascade(parallel=1)
@@ -52,25 +82,26 @@ def builder_case(d, start, pop, part, all_nan_leaf=None):
         bad("builder-raises:%s" % type(e).__name__, repr(e))
         return
     stored = {p: a for p, a in leaves.items() if not np.all(np.isnan(a))}
-    if all_nan_leaf is not None:
-        p = c02.population_positions((all_nan_leaf,), start)[0]
-        if os.path.exists(pio.tile_path(Pos(*p), makedirs=False)):
-            bad("all-nan-leaf-stored", "an all-NaN leaf was stored at %r" % (p,))
-    fin = np.concatenate([a[np.isfinite(a)] for a in stored.values()])
-    lo, hi = np.float32(fin.min()), np.float32(fin.max())
-    if not (np.isclose(b.imgset.data_min, lo, rtol=2e-7) and np.isclose(b.imgset.data_max, hi, rtol=2e-7)):
-        bad("range/imageset", "Builder.imgset data_min/max = %r/%r, leaves span %r/%r" % (b.imgset.data_min, b.imgset.data_max, float(lo), float(hi)))
-    from wwt_data_formats.folder import Folder
-    from wwt_data_formats.place import Place
-
-    f = Folder.from_file(os.path.join(root, "index_rel.wtml"))
-    ch = f.children[0]
-    iset = ch.foreground_image_set if isinstance(ch, Place) else ch
-    if not (np.isclose(iset.data_min, lo, rtol=2e-7) and np.isclose(iset.data_max, hi, rtol=2e-7)):
-        bad("range/wtml", "index_rel.wtml DataMin/DataMax = %r/%r, leaves span %r/%r" % (iset.data_min, iset.data_max, float(lo), float(hi)))
-    got = c02.read_tree(root, "fits")
-    want = c02.expected_tree(stored, start, kind)
-    c02.compare_trees(got, want, start, kind, bad, True, stored)
+    if nanpos is not None and not nan_file:
+        if os.path.exists(pio.tile_path(Pos(*nanpos), makedirs=False)):
+            bad("all-nan-leaf-stored", "an all-NaN leaf was stored at %r" % (nanpos,))
+    verify(b, stored)
+    # the same Builder again, after the base layer changed
+    first = sorted(stored)[0]
+    for ph, arr in (("recascade-wider", (stored[first] * 40.0 - 9000.0).astype("f4")), ("recascade-narrower", (stored[first] * 0.0 + np.float32(np.nanmean(stored[sorted(stored)[-1]]))).astype("f4"))):
+        phase[0] = ph
+        stored = dict(stored)
+        stored[first] = arr
+        part.case(nontrivial=True)
+        try:
+            with quiet():
+                c02.write_leaves(pio, {first: arr}, "fits")
+                b.cascade(parallel=1)
+                b.write_index_rel_wtml()
+        except Exception as e:
+            bad("builder-raises:%s" % type(e).__name__, repr(e))
+            return
+        verify(b, stored)
 
 
 def updated_leaves_case(d, part, parallel_cascade=1):
@@ -182,8 +213,10 @@ def toast_fits_case(d, part):
 def _builder_job(job):
     part = Part()
     with scratch("c14") as d:
-        for (start, pop, nanleaf) in job:
+        for k, (start, pop, nanleaf) in enumerate(job):
             builder_case(d, start, pop, part, nanleaf)
+            if nanleaf is not None and k % 2 == 0:
+                builder_case(d, start, pop, part, nanleaf, nan_file=True)
         updated_leaves_case(d, part)
         if job and job[0][0] == 1 and len(job[0][1]) == 1:
             toast_fits_case(d, part)
@@ -245,7 +278,7 @@ def replay(payload):
     if r.get("builder"):
         part = Part()
         with scratch("c14r") as d:
-            builder_case(d, r["start"], tuple(r["population"]), part, r.get("all_nan_leaf"))
+            builder_case(d, r["start"], tuple(r["population"]), part, r.get("all_nan_leaf"), bool(r.get("nan_leaf_as_file")))
         for sig, (detail, _) in part.violations.items():
             print("REPLAY-FAIL", sig, detail[:400])
         return 1 if part.violations else 0
